@@ -123,9 +123,16 @@ def validatePar (p : Prog) : List String :=
    (if instr && p.emitters == 0 then ["other"] else []) ++
    (if p.ptasks.isEmpty && p.slices.isEmpty && p.maps.isEmpty then ["other"] else [])).eraseDups
 
+/-- Unsupported signatures: type-correct Go that cff must refuse (a predicate returning a defined
+    boolean type or two results, a variadic predicate, a FallbackWith of the wrong arity).  The
+    harness marks such programs with a `sig-*` quirk. -/
+def sigDiags (p : Prog) : List String :=
+  if p.quirk == "sig-fbarity" then ["fallback"]
+  else if p.quirk.startsWith "sig-" then ["other"] else []
+
 def validate (p : Prog) : List String :=
   match p.kind with
-  | .flow => validateFlow p
+  | .flow => (sigDiags p ++ validateFlow p).eraseDups
   | .par => validatePar p
 
 /-! ### scheduling -/
